@@ -59,17 +59,27 @@ def check_case(case, info=None):
     if single and len(docs) == 1 and not isinstance(s2, list):
         d2, s2 = [d2], [s2]         # (the one-sentence calling form may hand back the sentence itself)
     if lnv is None:
-        # "the large negative value" when none is passed: the function's own default, whatever its spelling
-        import inspect
+        # "the large negative value" when none is passed is the function's own: read off the output (the first cell
+        # that has to be masked), required to be large and negative and to be the one value used everywhere
+        neg = None
         try:
-            lnv_default = inspect.signature(P.apply_category_filters).parameters['large_negative_value'].default
-            neg = scs[0].tag_scores.dtype.type(lnv_default)
+            for (ot, _od), s_, ws_ in zip(orig, s2, case['docs']):
+                for i_, w_ in enumerate(ws_):
+                    if w_ in case['dict']:
+                        for j_, c_ in enumerate(case['cats']):
+                            if c_ not in case['dict'][w_]:
+                                neg = np.float32(s_[0][i_, j_])
+                                raise StopIteration
+        except StopIteration:
+            pass
         except Exception:
-            neg = scs[0].tag_scores.dtype.type(-10e+32)
-        if not neg <= -1e10:
-            bad('large-negative-value', f'the default large negative value is {neg!r}')
+            neg = None
+        if neg is None:
+            neg = np.float32(-10e+32)
+        elif not neg <= -1e10:
+            bad('large-negative-value', f'a masked cell holds {neg!r}, which is not a large negative value')
     else:
-        neg = scs[0].tag_scores.dtype.type(lnv)
+        neg = np.float32(lnv)
     if len(d2) != len(docs) or len(s2) != len(docs):
         bad('shape', f'returned {len(d2)} documents / {len(s2)} score results for {len(docs)} sentences')
         return fails
@@ -87,8 +97,8 @@ def check_case(case, info=None):
         got_t, got_d = s[0], s[1]
         if [t.word for t in d] != ws or any(dict(t) != dict(Token.of_word(w)) for t, w in zip(d, ws)):
             bad('tokens-changed', f'sentence {k}: tokens {[t.word for t in d]} differ from the input {ws}')
-        if got_t.shape != exp.shape or not np.array_equal(exp, got_t):
-            diff = np.argwhere(exp != got_t)[:3].tolist() if got_t.shape == exp.shape else 'shape'
+        if got_t.shape != exp.shape or not np.array_equal(np.asarray(exp, dtype=np.float32), np.asarray(got_t, dtype=np.float32)):
+            diff = np.argwhere(np.asarray(exp, dtype=np.float32) != np.asarray(got_t, dtype=np.float32))[:3].tolist() if got_t.shape == exp.shape else 'shape'
             i, j = (diff[0] if isinstance(diff, list) and diff else (0, 0))
             kind = 'shape'
             if isinstance(diff, list) and diff:
@@ -128,7 +138,7 @@ def check_case(case, info=None):
                         for j, c in enumerate(case['cats']):
                             if c not in case['dict'][w]:
                                 exp[i, j] = neg
-                if s[0].shape != exp.shape or not np.array_equal(exp, s[0]):
+                if s[0].shape != exp.shape or not np.array_equal(np.asarray(exp, dtype=np.float32), np.asarray(s[0], dtype=np.float32)):
                     bad('second-pass/stale-words', f'sentence {k}: after the tokens\' words were changed in place to {ws} '
                         f'the filter masked by other words (dictionary {case["dict"]})')
                     break
@@ -194,7 +204,10 @@ def sweep_fails(only=None, stats=None):
         field = fn.split('.')[0]
         val = jsonnet_lite.get_field(inventory.mpath(fn), field)
         flat = [x for item in val for x in (item if isinstance(item, list) else [item])]
-        if flat != lits:
+        # (the scan also sees quoted field names and the like: every value the loader returns must be among the
+        # literals of the file, in the file's order)
+        it = iter(lits)
+        if not all(any(x == y for y in it) for x in flat):
             raise runner.HarnessError(f'mini-jsonnet loader disagrees with the literal scan on {fn}')
     # 2. every shipped category string: parses, round-trips (up to blanks / one outer bracket pair), hashable
     occ = inventory.all_category_strings(True)
@@ -241,6 +254,12 @@ def sweep_fails(only=None, stats=None):
             has_dict = cfgname == 'config_en.jsonnet'
             res = read_params(inventory.mpath(cfgname), disable_category_dictionary=not has_dict)
         except Exception as ex:
+            import traceback
+            fr = traceback.extract_tb(ex.__traceback__)
+            if fr and '/vlib/' in fr[-1].filename:
+                # raised by a stand-in of the harness (Params, the mini-jsonnet loader), not by read_params
+                raise runner.HarnessError(f'read_params({cfgname}): {type(ex).__name__}: {ex} '
+                                          f'(at {fr[-1].filename}:{fr[-1].lineno})') from ex
             bad(f'read_params-raises/{cfgname}', f'{type(ex).__name__}: {ex}')
             continue
         finally:
